@@ -303,6 +303,18 @@ impl Mach {
         None
     }
 
+    /// The shadow takes over whatever real memory holds now (after the real ELF loader has written an image).
+    pub fn shadow_from_real(&mut self) {
+        let b = &self.cpu.bus;
+        let s = &mut self.sh;
+        s.dram.copy_from_slice(&b.dram);
+        s.ram.copy_from_slice(&b.memory[..]);
+        s.vec.copy_from_slice(&b.exception_handling_vector);
+        s.io1.copy_from_slice(&b.io_registrs1);
+        s.io2.copy_from_slice(&b.io_registrs2);
+        self.stray = None;
+    }
+
     /// Make real memory equal to the shadow again (after a reported / tolerated divergence).
     pub fn resync_from_shadow(&mut self) {
         let s = &self.sh;
